@@ -19,6 +19,8 @@ HARNESS = {
     "C11": "c11_c12",
     "C12": "c11_c12",
     "C13": "c13_c19",
+    "C14": "c14_c16",
+    "C16": "c14_c16",
     "C19": "c13_c19",
 }
 
